@@ -78,6 +78,10 @@ def run_unit(unit):
         seed = seedmod.by_name(unit["seed"])
         st = State(seed, unit["hist"])
     except Exception:
+        if not unit["hist"] and unit["seed"].split("/")[0] in ("cfggen", "depgen", "nestgen"):
+            # a member of a generated family that the front end does not accept is outside the space (counted)
+            res["oracle_stats"]["generated_seed_not_accepted_by_front_end"] = 1
+            return res
         res["errors"].append("state rebuild failed: " + traceback.format_exc()[-800:])
         return res
     import importlib
